@@ -263,7 +263,7 @@ func RunCase(c Case) (obs []StepObs, slow bool) {
 		o.Clients6 = rib6.ClientCount()
 		obs = append(obs, o)
 	}
-	return obs, time.Since(t0) > 400*time.Millisecond
+	return obs, time.Since(t0) > 600*time.Millisecond
 }
 
 func clusterOf(c SessCfg) uint32 {
@@ -273,14 +273,20 @@ func clusterOf(c SessCfg) uint32 {
 	return c.Cluster
 }
 
-// RunCaseStable repeats a case whose run was too slow for the stepping hook's timing assumption.
+// RunCaseStable repeats a case whose run was too slow for the stepping hook's timing assumption (a
+// state's own 1-second poll must not fire while the case is stepped). On a loaded machine that can
+// take many attempts; it gives up only after about two minutes of trying.
 func RunCaseStable(c Case) ([]StepObs, bool) {
-	for i := 0; i < 6; i++ {
+	for i := 0; i < 60; i++ {
 		obs, slow := RunCase(c)
 		if !slow {
 			return obs, true
 		}
-		time.Sleep(1100 * time.Millisecond)
+		d := time.Duration(200*(i+1)) * time.Millisecond
+		if d > 3*time.Second {
+			d = 3 * time.Second
+		}
+		time.Sleep(d)
 	}
 	return nil, false
 }
